@@ -42,7 +42,7 @@ import (
 // moves, so an empty schedule is the sequential history request 0, then 1, then 2).
 type c05SharedCase struct {
 	Kind     string `json:"kind"`
-	Backend  string `json:"backend"` // "redis"
+	Backend  string `json:"backend"` // "redis" | "memcached" (zz_verif_C05_sharedmemcached_test.go)
 	Nodes    []int  `json:"nodes"`
 	Schedule []int  `json:"schedule"`
 }
@@ -150,7 +150,7 @@ func c05SharedRun(x *h.Ctx, c c05SharedCase) {
 	if k == nil {
 		x.Fatalf("unknown kind %q", c.Kind)
 	}
-	if c.Backend != "redis" {
+	if c.Backend != "redis" && c.Backend != "memcached" {
 		x.Fatalf("unknown back-end %q", c.Backend)
 	}
 	n := len(c.Nodes)
@@ -163,22 +163,29 @@ func c05SharedRun(x *h.Ctx, c c05SharedCase) {
 		}
 	}
 
-	// --- fixture: one Redis, one session database (own client) per node instance ---
-	srv, err := miniredis.Run()
-	x.NoErr(err, "start miniredis")
-	x.Cleanup(srv.Close)
+	// --- fixture: one shared server, one session database (own client) per node instance ---
 	s := sched.New(n, sched.Options{})
 	fx := c05NewFixture(s, c05Case{Kind: c.Kind})
 	log := &c05RedisLog{}
 	eng := c05NodesEngine{s: s, nodes: c.Nodes}
-	for node := 0; node < c05MaxNodes; node++ {
-		client := redis.NewClient(&redis.Options{Addr: srv.Addr(), DisableIndentity: true, MaxRetries: -1})
-		// connect now, from this goroutine: the connection handshake is no session-store operation of a request
-		x.NoErr(client.Ping(context.Background()).Err(), "ping miniredis")
-		client.AddHook(c05RedisHook{s: s, node: node, log: log})
-		db := storage.NewRedisSessionDatabase(client, c05SharedPrefix)
-		x.Cleanup(db.Close)
-		eng.dbs = append(eng.dbs, db)
+	reached := func() bool { return true }
+	switch c.Backend {
+	case "redis":
+		srv, err := miniredis.Run()
+		x.NoErr(err, "start miniredis")
+		x.Cleanup(srv.Close)
+		for node := 0; node < c05MaxNodes; node++ {
+			client := redis.NewClient(&redis.Options{Addr: srv.Addr(), DisableIndentity: true, MaxRetries: -1})
+			// connect now, from this goroutine: the connection handshake is no session-store operation of a request
+			x.NoErr(client.Ping(context.Background()).Err(), "ping miniredis")
+			client.AddHook(c05RedisHook{s: s, node: node, log: log})
+			db := storage.NewRedisSessionDatabase(client, c05SharedPrefix)
+			x.Cleanup(db.Close)
+			eng.dbs = append(eng.dbs, db)
+		}
+		reached = func() bool { return srv.TotalConnectionCount() >= c05MaxNodes }
+	case "memcached":
+		eng.dbs = c05MemcachedNodes(x, s, log)
 	}
 	fx.w.storageEngine = eng
 	_, request := k.setup(x, fx, "")
@@ -197,8 +204,8 @@ func c05SharedRun(x *h.Ctx, c c05SharedCase) {
 	if len(fx.rep.msgs) > 0 {
 		x.Fatalf("mock failure: %v", fx.rep.msgs)
 	}
-	if len(tr.Steps) == 0 || srv.TotalConnectionCount() < c05MaxNodes {
-		x.Fatalf("fixture: the requests did not reach the shared Redis (%d commands scheduled)", len(tr.Steps))
+	if len(tr.Steps) == 0 || !reached() {
+		x.Fatalf("fixture: the requests did not reach the shared %s (%d commands scheduled)", c.Backend, len(tr.Steps))
 	}
 	for i := range out {
 		if out[i].OK && out[i].Post != nil {
@@ -252,9 +259,9 @@ func c05SharedRun(x *h.Ctx, c c05SharedCase) {
 	}
 	for _, cl := range log.classes {
 		// which commands the requests use (get / del / set ex / set ex nx / getdel / pipeline[...])
-		x.Class("redis-command:" + cl)
+		x.Class(c.Backend + "-command:" + cl)
 	}
-	h.Count(c05ID, x.Unit, "redis_commands_scheduled", len(tr.Steps))
+	h.Count(c05ID, x.Unit, c.Backend+"_commands_scheduled", len(tr.Steps))
 
 	// --- oracle ---
 	succ := 0
@@ -271,16 +278,16 @@ func c05SharedRun(x *h.Ctx, c c05SharedCase) {
 		for i, o := range out {
 			fmt.Fprintf(&b, "request %d (served by node instance %s): ok=%v %s\n", i, placement[i], o.OK, o.Detail)
 		}
-		b.WriteString("Redis commands of the requests in executed order (one shared Redis, one client per node instance):\n")
+		fmt.Fprintf(&b, "%s commands of the requests in executed order (one shared %s server, one client per node instance):\n", c.Backend, c.Backend)
 		for i, st := range tr.Steps {
 			fmt.Fprintf(&b, "  %2d. request %d, %s\n", i, st.Actor, st.Op)
 		}
 		return b.String()
 	}
 	if succ > 1 {
-		where := "one-instance-redis"
+		where := "one-instance-" + c.Backend
 		if len(succNodes) > 1 {
-			where = "two-instances-shared-redis"
+			where = "two-instances-shared-" + c.Backend
 		}
 		c05Violate(x, "double-spend:"+c.Kind+":"+where, "%d of %d requests presenting the same %s succeeded\n%s", succ, n, c.Kind, describe())
 	}
@@ -299,14 +306,14 @@ func c05SharedRun(x *h.Ctx, c c05SharedCase) {
 // as the control.
 var c05SharedPlacements2 = [][]int{{0, 1}, {1, 0}, {0, 0}}
 
-func c05SharedEnumerate(t *testing.T) func(yield func(c05SharedCase) bool) {
+func c05SharedEnumerate(t *testing.T, backend string) func(yield func(c05SharedCase) bool) {
 	unit := t.Name()
 	return func(yield func(c05SharedCase) bool) {
 		for _, name := range c05KindOrder {
 			for _, nodes := range c05SharedPlacements2 {
 				stop := false
 				executed, complete := sched.Explore(0, func(prefix []int) (sched.Trace, bool) {
-					c := c05SharedCase{Kind: name, Backend: "redis", Nodes: nodes, Schedule: append([]int{}, prefix...)}
+					c := c05SharedCase{Kind: name, Backend: backend, Nodes: nodes, Schedule: append([]int{}, prefix...)}
 					for attempt := 0; ; attempt++ {
 						if !yield(c) {
 							stop = true
@@ -337,7 +344,7 @@ func c05SharedEnumerate(t *testing.T) func(yield func(c05SharedCase) bool) {
 			}
 			// sequential replays of three requests over the node instances (empty schedule = request 0, then 1, then 2)
 			for _, nodes := range [][]int{{0, 1, 0}, {0, 1, 1}, {0, 0, 1}, {0, 1, 2}} {
-				if !yield(c05SharedCase{Kind: name, Backend: "redis", Nodes: nodes}) {
+				if !yield(c05SharedCase{Kind: name, Backend: backend, Nodes: nodes}) {
 					return
 				}
 			}
@@ -348,7 +355,7 @@ func c05SharedEnumerate(t *testing.T) func(yield func(c05SharedCase) bool) {
 // all interleavings of two requests served by two node instances that share one Redis, every kind: exhaustive
 func TestVerif_C05_SharedRedis2(t *testing.T) {
 	c05Suppress = true
-	h.Each(t, c05ID, c05SharedEnumerate(t), c05SharedRun)
+	h.Each(t, c05ID, c05SharedEnumerate(t, "redis"), c05SharedRun)
 	c05Guard(t)
 }
 func TestVerifReplay_C05_SharedRedis2(t *testing.T) {
@@ -356,11 +363,17 @@ func TestVerifReplay_C05_SharedRedis2(t *testing.T) {
 }
 
 // three concurrent requests over two or three node instances, schedules sampled
-func c05SharedGen(t *rapid.T) c05SharedCase {
+func c05SharedGen(t *rapid.T) c05SharedCase { return c05SharedGenFor("redis")(t) }
+
+func c05SharedGenFor(backend string) func(t *rapid.T) c05SharedCase {
+	return func(t *rapid.T) c05SharedCase { return c05SharedGenBackend(t, backend) }
+}
+
+func c05SharedGenBackend(t *rapid.T, backend string) c05SharedCase {
 	name := rapid.SampledFrom(c05KindOrder).Draw(t, "kind")
 	nodes := rapid.SampledFrom([][]int{{0, 1, 0}, {0, 1, 1}, {0, 0, 1}, {0, 1, 2}, {1, 0, 2}}).Draw(t, "nodes")
 	sch := rapid.SliceOfN(rapid.IntRange(0, 2), 0, 16).Draw(t, "schedule")
-	return c05SharedCase{Kind: name, Backend: "redis", Nodes: nodes, Schedule: sch}
+	return c05SharedCase{Kind: name, Backend: backend, Nodes: nodes, Schedule: sch}
 }
 
 func TestVerif_C05_SharedRedis3(t *testing.T) {
